@@ -1,5 +1,6 @@
 import YV.Drv.T
 import YV.Spec.YPathS
+import YV.Spec.YDataS
 namespace YV.Drv.S
 open Lean YV YV.Y YV.T YV.TS YV.SC YV.SS YV.Drv YV.Drv.T
 
@@ -64,5 +65,45 @@ def handlePath (j : Json) : List (String × Json) :=
     | none => "compile-err"
     | some top => ";".intercalate (paths.flatMap fun p => [false, true].map fun ai => showVerdict (walkTop specSem ai top p))
   [("m", m), ("s", s)]
+
+end YV.Drv.S
+
+namespace YV.Drv.S
+open Lean YV YV.Y YV.T YV.TS YV.SC YV.SS YV.D YV.DS YV.Drv YV.Drv.T
+
+instance : Inhabited DN := ⟨.mk [] [] []⟩
+
+partial def loadDN (j : Json) : DN :=
+  .mk (bytesOf (jstr j "n")) ((jarr j "kids").map loadDN) ((jarr j "vals").map fun v => bytesOf (strOf v))
+
+def sortStrs (l : List String) : List String := (l.toArray.qsort (· < ·)).toList
+
+partial def walkDN : DN → String
+  | .mk n kids vals =>
+    Y.hexOf n ++
+      (if kids.isEmpty then "" else "(" ++ ",".intercalate (sortStrs (kids.map walkDN)) ++ ")") ++
+      (if vals.isEmpty then "" else "[" ++ ",".intercalate (vals.map Y.hexOf) ++ "]")
+
+def showCfgPath (p : List Tok) : String := ".".intercalate (p.map fun t => "x" ++ Y.hexOf t)
+def strOfTok (t : Tok) : String := String.fromUTF8! (ByteArray.mk (t.map (·.toUInt8)).toArray)
+
+def showDErr : DErr → String
+  | .mand p n => s!"mand|{showCfgPath p}|{strOfTok n}"
+  | .choice p => s!"choice|{showCfgPath p}"
+  | .card xp => "card|" ++ String.join (xp.map fun t => "/" ++ strOfTok t)
+  | .unique p ks => s!"unique|{showCfgPath p}|" ++ " ".intercalate (sortStrs (ks.map strOfTok))
+
+def showData (top : List (SN Ty)) (root : DN) (errs : List DErr) (dec : DN) (dec2 : DN) : String :=
+  "V:" ++ ";".intercalate (sortStrs (errs.map showDErr)) ++ "\nD:" ++ walkDN dec ++ "\n" ++
+    (if walkDN dec = walkDN dec2 then "idem" else "NOT-idem:" ++ walkDN dec2)
+
+def handleData (j : Json) : List (String × Json) :=
+  match (jarr j "top").mapM (loadSN mkTyM) with
+  | none => [("m", "compile-err"), ("s", "compile-err")]
+  | some top =>
+    let root := loadDN (jobj j "data")
+    let m := showData top root (validateData top root) (decorate top root) (decorate top (decorate top root))
+    let s := showData top root (violations top root) (decorateS top root) (decorateS top (decorateS top root))
+    [("m", m), ("s", s)]
 
 end YV.Drv.S
